@@ -27,6 +27,8 @@ func runCmd(f func()) (panicked bool) {
 	return false
 }
 
+var verifC18Out = "OUT"
+
 // VerifC18Validate: `acv validate P D [OUT]` against every prior state of OUT.
 func VerifC18Validate() {
 	toFile := v.Choice("toFile", 2) == 1
@@ -38,13 +40,23 @@ func VerifC18Validate() {
 	v.FSPut("P", "profile-text", false)
 	v.FSPut("D", "data-text", false)
 	prior := 0
+	// the stubbed library answers with a function of the texts it is given
+	report = report + "#P=profile-text#D=data-text"
 	if toFile {
-		prior = v.Choice("prior", 3) // 0 absent, 1 present, 2 present and read-only
-		if prior != 0 {
-			pl := v.Choice("priorLen", 6)
-			v.FSPut("OUT", v.Bytes("priorContent", pl), prior == 2)
+		// the output path may be one of the input files: the report is still the one for the texts the
+		// files held when acv started
+		out := []string{"OUT", "D", "P"}[v.Choice("outputIs", 3)]
+		if out == "OUT" {
+			prior = v.Choice("prior", 3) // 0 absent, 1 present, 2 present and read-only
+			if prior != 0 {
+				pl := v.Choice("priorLen", 6)
+				v.FSPut("OUT", v.Bytes("priorContent", pl), prior == 2)
+			}
+		} else {
+			prior = 1
 		}
-		v.SetArgs([]string{"acv", "validate", "P", "D", "OUT"})
+		v.SetArgs([]string{"acv", "validate", "P", "D", out})
+		verifC18Out = out
 	} else {
 		v.SetArgs([]string{"acv", "validate", "P", "D"})
 	}
@@ -73,7 +85,7 @@ func VerifC18Validate() {
 		return
 	}
 	v.Reach("wrote-file")
-	content, ok := v.FSGet("OUT")
+	content, ok := v.FSGet(verifC18Out)
 	v.Assert("C18.file-exists", ok)
 	v.Assert("C18.file-exact", content == report)
 	v.Assert("C18.exit-zero", code == 0)
@@ -100,7 +112,7 @@ func VerifC18Generate() {
 		return
 	}
 	v.Reach("printed")
-	v.Assert("C18.stdout-exact", v.Stdout() == code+"\n")
+	v.Assert("C18.stdout-exact", v.Stdout() == code+"#P=profile-text\n")
 	v.Assert("C18.exit-zero", ec == 0)
 }
 
@@ -127,7 +139,7 @@ func VerifC18Normalize() {
 		return
 	}
 	v.Reach("printed")
-	v.Assert("C18.stdout-exact", v.Stdout() == text+"\n")
+	v.Assert("C18.stdout-exact", v.Stdout() == text+"#E=normalized#D=data-text\n")
 	v.Assert("C18.exit-zero", ec == 0)
 }
 
@@ -226,6 +238,25 @@ func VerifC18ValidateNative() {
 		return
 	}
 	out := filepath.Join(dir, "OUT")
+	if _, asked := v.ReplayInput("outputIs"); asked && v.ReplayInt("outputIs") != 0 {
+		// the output path is one of the input files: work on private copies of both
+		pc, dc := filepath.Join(dir, "p.yaml"), filepath.Join(dir, "d.jsonld")
+		pb, _ := os.ReadFile(profile)
+		db, _ := os.ReadFile(data)
+		os.WriteFile(pc, pb, 0o644)
+		os.WriteFile(dc, db, 0o644)
+		profile, data = pc, dc
+		out = dc
+		if v.ReplayInt("outputIs") == 2 {
+			out = pc
+		}
+		so, _, code := v.RunCmd(dir, acv, "validate", profile, data, out)
+		got, rerr := os.ReadFile(out)
+		v.Assert("C18.file-exists", rerr == nil)
+		v.Assert("C18.file-exact", dropDate(string(got)+"\n") == dropDate(want))
+		v.Assert("C18.exit-zero", code == 0 && so == "")
+		return
+	}
 	prior := v.ReplayInt("prior")
 	if prior != 0 {
 		mode := os.FileMode(0o644)
